@@ -6,7 +6,7 @@ CONSTANTS
   NP = 1
   Names = {"a", "b"}
   Vals = {1}
-  Acts = {"CreateGroup", "CreateObject", "Copy"}
+  Acts = {"CreateGroup", "CreateObject", "Copy", "CopyIntoSelf"}
   Deviations = {"CloseKeepsOrphans"}
   MaxDepth = 5
 CONSTRAINT DepthBound
